@@ -38,6 +38,16 @@ type Query {
   chief: Keeper
   blob(j: Json): String
   tagged(filter: Filter): String
+  label: Tag
+  labelRef: TagRef
+}
+type Tag {
+  title: String
+  artist: String
+}
+type TagRef {
+  title: String
+  artist: String
 }
 scalar Json
 type Mutation {
@@ -147,6 +157,7 @@ const (
 	FaultTwinGroup  = "error_group_with_equal_texts" // ggql.Errors of three members, two of them with the same text and different extensions
 	FaultWrapGroup  = "wrapped_error_group"          // fmt.Errorf("ctx: %w", group)-style wrapper around a ggql.Errors of two members
 	FaultWrapGGQL   = "wrapped_ggql_error"           // wrapper around a *ggql.Error with extensions
+	FaultOwnPath    = "ggql_error_with_own_path"     // a *ggql.Error handed on from elsewhere: wraps ErrResolve, has a Path, Line and Column of its own
 	FaultPanic      = "panic"                        // the resolver panics (the caller of ggql recovers): histories only
 	FaultBadList    = "bad_list_elements"            // a [scalar] field returns []interface{}{ok, bad, ok, bad}: two coercion failures in one list
 )
@@ -288,6 +299,9 @@ func (tr *Tracker) enter(typ, field string, args map[string]interface{}, path st
 			&ggql.Error{Base: errors.New("injected twin " + tag), Extensions: map[string]interface{}{"code": "E" + strconv.Itoa(tr.N) + "t2"}},
 			errors.New("injected member 3 " + tag),
 		}
+	case FaultOwnPath:
+		return kind, &ggql.Error{Base: &wrapErr{msg: "upstream " + tag, err: ggql.ErrResolve}, Line: 77, Column: 7,
+			Path: []interface{}{"upstream", "items", 1, "price"}, Extensions: map[string]interface{}{"code": "E" + strconv.Itoa(tr.N)}}
 	case FaultWrapGroup:
 		f.Members = 2
 		return kind, &wrapErr{msg: "while resolving " + field, err: ggql.Errors{errors.New("injected member 1 " + tag), errors.New("injected member 2 " + tag)}}
@@ -319,6 +333,11 @@ type Query struct {
 	// AltKeeper registers *Keeper for the type Keeper up front, so that the
 	// second Go struct behind that type (Chief) never wins the binding.
 	AltKeeper bool
+	// Label is served by value under the GraphQL type Tag, LabelRef (a pointer
+	// to the same Go struct) under TagRef; Title has a value receiver, Artist a
+	// pointer receiver (not in the method set of the value).
+	Label    Label
+	LabelRef *Label
 	// Chief is served by a second Go struct for the GraphQL type Keeper (other
 	// field order); only plain struct fields are ever selected beneath it.
 	Chief *KeeperAlt
@@ -363,6 +382,19 @@ type Keeper struct {
 
 	q *Query
 }
+
+// Label is one Go struct behind two GraphQL types, once by value, once by
+// pointer.
+type Label struct {
+	T string
+	A string
+}
+
+// Title has a value receiver.
+func (l Label) Title() string { return "title:" + l.T }
+
+// Artist has a pointer receiver.
+func (l *Label) Artist() string { return "artist:" + l.A }
 
 // KeeperAlt is a second Go struct behind the GraphQL type Keeper: the same
 // field names in another order (an application with two representations of
@@ -641,6 +673,8 @@ func GenZoo(t *tape.Tape) *Query {
 		q.Keepers = append(q.Keepers, nil)
 	}
 	q.Boss = q.Keepers[0]
+	q.Label = Label{T: "t" + q.Title, A: "a" + q.Title}
+	q.LabelRef = &Label{T: "rt" + q.Title, A: "ra" + q.Title}
 	q.Chief = &KeeperAlt{Rank: q.Boss.Rank, Age: q.Boss.Age + 1, Note: "alt", Name: "chief-" + q.Boss.Name}
 	for _, k := range q.Keepers {
 		if k == nil {
@@ -669,6 +703,16 @@ func GenZoo(t *tape.Tape) *Query {
 
 // AltRequests select plain fields of Keeper through both Go structs that serve
 // it (boss, keepers: Keeper; chief: KeeperAlt, other field order).
+// LabelRequests select the two GraphQL types served by one Go struct, by value
+// and by pointer.
+var LabelRequests = []string{
+	"{ label { title } }",
+	"{ labelRef { title artist } }",
+	"{ label { title artist } }",
+	"{ labelRef { artist } l: label { title } }",
+	"{ a: labelRef { title } }",
+}
+
 var AltRequests = []string{
 	"{ chief { name age rank } }",
 	"{ boss { name age rank } }",
@@ -766,6 +810,11 @@ func zooField(q *Query, obj interface{}, name string, args map[string]interface{
 			return o.Boss, nil
 		case "chief":
 			return o.Chief, nil
+		case "label":
+			l := o.Label
+			return &l, nil
+		case "labelRef":
+			return o.LabelRef, nil
 		case "relay":
 			return relay(o, toInt64(args["n"])), nil
 		case "pick":
@@ -860,6 +909,13 @@ func zooField(q *Query, obj interface{}, name string, args map[string]interface{
 			pad, _ := args["pad"].(bool)
 			return o.Code(pad), nil
 		}
+	case *Label:
+		switch name {
+		case "title":
+			return o.Title(), nil
+		case "artist":
+			return o.Artist(), nil
+		}
 	case *KeeperAlt:
 		switch name {
 		case "name":
@@ -946,6 +1002,9 @@ func gqlName(goName string) string {
 	}
 	if goName == "KeeperAlt" {
 		return "Keeper"
+	}
+	if goName == "Label" {
+		return "Tag"
 	}
 	return goName
 }
